@@ -602,6 +602,41 @@ def propagate_new_constants(tree, ref_globals, rel=None):
 # getattr
 
 
+_REDUCE_OPERATORS = {"operator.or_": ast.BitOr, "operator.and_": ast.BitAnd, "operator.xor": ast.BitXor, "operator.add": ast.Add,
+                     "operator.mul": ast.Mult, "operator.__or__": ast.BitOr, "operator.__and__": ast.BitAnd}
+
+
+def _literal_into_reduce(tree):
+    """`xs = [a, b]` .. `reduce(op, xs)` with xs bound once and read once (there): the literal takes the place of the name, when
+    only simple statements without calls stand between the two (nothing can change what the items mean)"""
+    n = 0
+    for q, fn in _iter_funcs(tree):
+        body = fn.body
+        for i, st in enumerate(body):
+            if not (isinstance(st, ast.Assign) and len(st.targets) == 1 and isinstance(st.targets[0], ast.Name)
+                    and isinstance(st.value, (ast.List, ast.Tuple)) and st.value.elts):
+                continue
+            nm = st.targets[0].id
+            uses = [x for x in ast.walk(fn) if isinstance(x, ast.Name) and x.id == nm]
+            if len(uses) != 2:
+                continue
+            for j in range(i + 1, len(body)):
+                nxt = body[j]
+                hit = [c for c in ast.walk(nxt) if isinstance(c, ast.Call) and ast.unparse(c.func) in ("functools.reduce", "reduce") and len(c.args) == 2
+                       and isinstance(c.args[1], ast.Name) and c.args[1].id == nm and ast.unparse(c.args[0]) in _REDUCE_OPERATORS]
+                if hit:
+                    if isinstance(nxt, (ast.Assign, ast.Return, ast.Expr)) and sum(isinstance(c, ast.Call) for c in ast.walk(nxt)) == 1:
+                        hit[0].args[1] = st.value
+                        del body[i]
+                        n += 1
+                    break
+                if not isinstance(nxt, ast.Assign) or any(isinstance(c, (ast.Call, ast.Await, ast.NamedExpr)) for c in ast.walk(nxt)):
+                    break
+            if n:
+                break
+    return n
+
+
 class _Getattr(ast.NodeTransformer):
     def visit_JoinedStr(self, n):
         """f"Get{'ResidueName'}" (what is left of f"Get{field}" once the table loop is written out) -> "GetResidueName" """
@@ -675,6 +710,15 @@ class _Getattr(ast.NodeTransformer):
                 else:
                     new_kw.append(k)
             n.keywords = new_kw
+        # functools.reduce(operator.or_, [a, b, c]) -> a | b | c   (a literal collection of at least one item, no start value: the same
+        # left fold, the same operator calls in the same order)
+        if ast.unparse(n.func) in ("functools.reduce", "reduce") and len(n.args) == 2 and not n.keywords \
+                and ast.unparse(n.args[0]) in _REDUCE_OPERATORS and isinstance(n.args[1], (ast.Tuple, ast.List)) and n.args[1].elts \
+                and not any(isinstance(x, ast.Starred) for x in n.args[1].elts):
+            acc = n.args[1].elts[0]
+            for x in n.args[1].elts[1:]:
+                acc = ast.BinOp(left=acc, op=_REDUCE_OPERATORS[ast.unparse(n.args[0])](), right=x)
+            return ast.copy_location(acc, n)
         # "lit{}lit".format(x, ..) with automatic fields only -> f"lit{x}lit"
         if isinstance(n.func, ast.Attribute) and n.func.attr == "format" and isinstance(n.func.value, ast.Constant) and isinstance(n.func.value.value, str) \
                 and not n.keywords and not any(isinstance(a, ast.Starred) for a in n.args):
@@ -1318,9 +1362,46 @@ def inline_new_helpers(tree, ref_funcs, rel=None):
                     return new_e
             return n
 
+    _hoist_k = [0]
+
+    def hoist_nested(block, cls):
+        """`return g(a, helper(x))` / `self.lines.append(helper(x))` -> `_t = helper(x)` in front of the statement, when the helper is a
+        new statement-kind helper, it is the only call among the arguments, the other arguments are plain names or constants and
+        the receiver of a method call is not something the helper is handed (so nothing the outer call reads first can be
+        changed by the helper)"""
+        out = []
+        for st in block:
+            val = getattr(st, "value", None) if isinstance(st, (ast.Expr, ast.Assign, ast.Return)) else None
+            if isinstance(val, ast.Call) and not val.keywords and not any(isinstance(a, ast.Starred) for a in val.args):
+                inner = [a for a in val.args if isinstance(a, ast.Call)]
+                others = [a for a in val.args if not isinstance(a, ast.Call)]
+                f = val.func
+                root = f
+                while isinstance(root, ast.Attribute):
+                    root = root.value
+                if len(inner) == 1 and all(isinstance(a, (ast.Name, ast.Constant)) for a in others) and isinstance(root, ast.Name) \
+                        and not any(isinstance(c, ast.Call) for c in ast.walk(f)):
+                    k = match(inner[0], cls)
+                    handed = {x.id for x in ast.walk(inner[0]) if isinstance(x, ast.Name)}
+                    if k and info[k[0]][1] not in ("expr",) and match(val, cls) is None and (isinstance(f, ast.Name) or root.id not in handed) \
+                            and not any(isinstance(c, ast.Call) for a in inner[0].args for c in ast.walk(a)):
+                        _hoist_k[0] += 1
+                        nm = f"_hoisted_{_hoist_k[0]}"
+                        while nm in scope["bound"]:
+                            _hoist_k[0] += 1
+                            nm = f"_hoisted_{_hoist_k[0]}"
+                        a_ = ast.Assign(targets=[ast.Name(id=nm, ctx=ast.Store())], value=inner[0])
+                        ast.copy_location(a_, st)
+                        val.args[val.args.index(inner[0])] = ast.copy_location(ast.Name(id=nm, ctx=ast.Load()), inner[0])
+                        ast.fix_missing_locations(a_)
+                        out.append(a_)
+            out.append(st)
+        return out
+
     def stmt_inline(block, cls):
         nonlocal count
         out = []
+        block = hoist_nested(block, cls)
         for st in block:
             for fld in ("body", "orelse", "finalbody"):
                 if hasattr(st, fld) and isinstance(getattr(st, fld), list) and not isinstance(st, (ast.FunctionDef, ast.AsyncFunctionDef, ast.ClassDef)):
@@ -1706,6 +1787,79 @@ def _writes_through(st, operands):
             if isinstance(b, ast.Name) and b.id in operands:
                 return True
     return False
+
+
+def inline_comprehension_temps(tree, ref_mod):
+    """`t = [.. for ..]` followed at once by a statement whose value is `f(t, ..)` (f a dotted name, t its first argument, t a local the
+    reference function did not have, bound once and read once): the comprehension is the first thing that statement evaluates
+    either way, so it may stand there."""
+    from . import localnames
+    n_done = 0
+    for q, fn in localnames._numbered(tree):
+        ref = ref_mod.get(q)
+        if not ref:
+            continue
+        ref_names = {n for n, _ in ref}
+        params = localnames._params(fn)
+        own = list(localnames._own_nodes(fn))
+        for parent in [fn] + [x for x in own if isinstance(x, (ast.If, ast.For, ast.While, ast.With, ast.Try))]:
+            for fld in ("body", "orelse", "finalbody"):
+                block = getattr(parent, fld, None)
+                if not isinstance(block, list):
+                    continue
+                for k in range(len(block) - 1):
+                    st, nxt = block[k], block[k + 1]
+                    if not (isinstance(st, ast.Assign) and len(st.targets) == 1 and isinstance(st.targets[0], ast.Name)
+                            and isinstance(st.value, (ast.ListComp, ast.SetComp, ast.DictComp))):
+                        continue
+                    t = st.targets[0].id
+                    if t in ref_names or t in params or sum(1 for x in ast.walk(fn) if isinstance(x, ast.Name) and x.id == t) != 2:
+                        continue
+                    val = getattr(nxt, "value", None) if isinstance(nxt, (ast.Assign, ast.Expr, ast.Return)) else None
+                    if not (isinstance(val, ast.Call) and val.args and isinstance(val.args[0], ast.Name) and val.args[0].id == t
+                            and _dotted_name(val.func) and not ast.unparse(val.func).startswith(t + ".")):
+                        continue
+                    if isinstance(nxt, ast.Assign) and not all(isinstance(x, ast.Name) or (isinstance(x, ast.Attribute) and _dotted_name(x)) for x in nxt.targets):
+                        continue
+                    val.args[0] = st.value
+                    del block[k]
+                    n_done += 1
+                    break
+    return n_done
+
+
+def rename_dead_aliases(tree, ref_mod):
+    """`t = s` at the top level of a function body, t a local the reference function did not have and s a local (or parameter) that
+    is never read again after this statement: from here on t is just another spelling of s (a helper that was written out keeps
+    working on the object under its own parameter name) - t is renamed to s and the statement goes.  Rebinding t afterwards then
+    rebinds s, which nobody reads under that name any more."""
+    from . import localnames
+    n_done = 0
+    for q, fn in localnames._numbered(tree):
+        ref = ref_mod.get(q)
+        if not ref:
+            continue
+        ref_names = {n for n, _ in ref}
+        params = localnames._params(fn)
+        for k, st in enumerate(fn.body):
+            if not (isinstance(st, ast.Assign) and len(st.targets) == 1 and isinstance(st.targets[0], ast.Name) and isinstance(st.value, ast.Name)):
+                continue
+            t, s_ = st.targets[0].id, st.value.id
+            if t in ref_names or t in params or t == s_ or not (s_ in ref_names or s_ in params):
+                continue
+            before = [x for b in fn.body[:k] for x in ast.walk(b)]
+            after = [x for b in fn.body[k + 1:] for x in ast.walk(b)]
+            if any(isinstance(x, ast.Name) and x.id == t for x in before) or any(isinstance(x, ast.Name) and x.id == s_ for x in after):
+                continue
+            if any(isinstance(x, (ast.FunctionDef, ast.AsyncFunctionDef, ast.Lambda, ast.ClassDef, ast.Global, ast.Nonlocal)) for x in ast.walk(fn) if x is not fn):
+                continue
+            for x in after:
+                if isinstance(x, ast.Name) and x.id == t:
+                    x.id = s_
+            del fn.body[k]
+            n_done += 1
+            break
+    return n_done
 
 
 def inline_new_temps(tree, ref_mod, ctype=None):
@@ -2134,6 +2288,8 @@ def normalise(rel, tree, inv):
     done["default-keywords"] = drop_default_keywords(tree, localnames.table().get("__defaults__", {}), inv.get("call_keywords", {}))
     done["keywords"] = positionalise_new_keywords(tree, inv.get("call_positional", {}), localnames.table().get("__signatures__", {}),
                                                   inv.get("call_keywords", {}))
+    while _literal_into_reduce(tree):
+        pass
     _Getattr().visit(tree)
     _Aug().visit(tree)
     ast.fix_missing_locations(tree)
@@ -2354,6 +2510,9 @@ def finish(tree, inv=None):
         expand_new_literal_comprehensions(tree, inv.get("literal_comps", {}))
         if not inv.get("dict_comps"):
             _DictComp().visit(tree)
+        # (no module of the reference tree calls functools.reduce)
+        while _literal_into_reduce(tree):
+            pass
     _Getattr().visit(tree)
     _Aug().visit(tree)
     ast.fix_missing_locations(tree)
